@@ -13,9 +13,15 @@ package geom
 //@ pred Kept(r, d) = len(r) > len(d) && ((cap(d) > 0 && region(r) == region(d) && offset(r) == offset(d)) || fresh(r)) && (forall q :: 0 <= q && q < len(d) ==> r[q] == old(d[q]))
 //@ pred Arr(r, d) = Kept(r, d) && len(r) >= len(d) + 2 && r[len(d)] == 91 && r[len(r) - 1] == 93 && r[len(d) + 1] != 44 && r[len(r) - 2] != 44
 
+//@ prop C05,C06
+// the text of an ordinate is exactly strconv's shortest 'f' rendering (which parses back to the same float64)
+//@ pred FLen(f) = uf(fmtlen, f, 102, 0 - 1, 64)
 //@ func appendFloat
 //@   modifies dst
 //@   ensures Kept(result, dst)
+//@   ensures len(result) == len(dst) + FLen(f) && FLen(f) >= 1
+//@   ensures forall k :: 0 <= k && k < FLen(f) ==> result[len(dst) + k] == uf(fmtbyte, f, 102, 0 - 1, 64, k)
+//@ prop C06
 
 //@ func appendGeoJSONCoordinate
 //@   modifies dst
